@@ -88,179 +88,7 @@ func runC08(c *Ctx) {
 	})
 
 	c.rule("C08.O8", "a reorganisation interrupted by a crash can be resumed: the crash may leave the filter header store one block behind the block header store (its rollback step runs first); the resumed rollback then skips the filter step for exactly the blocks the filter store no longer has and performs it for the others - a test of the filter tip against the rollback target instead of against the block being removed cuts the filter store once too often, its tip names a block that is gone and the store cannot be opened again; "+filterRollbackFirstDoc, func() { c.filterRollbackFirst() })
-	c.rule("C08.V1", "whole records are cut off the real end of the file: truncateHeaders computes the new length as (current length) - numHeaders * (record size), where the current length is asked of the file in that call (Stat().Size() or Seek(0, io.SeekEnd)); a remembered length is accepted only if every function of the package that changes the file's length (Write / Truncate on it, os.Truncate) - or each of its callers - writes the remembered length again after doing so: a length recorded before the start-up trim of a torn tail stays too large by the fragment, every later rollback leaves that fragment of a removed header behind, and the append-only file then holds every later record at a shifted offset", func() {
-		fn := c.fn("(*headerfs.headerFile).truncateHeaders")
-		truncFile := c.hfs("headerFile", "truncateFile")
-		sizeOfType := c.method("headerfs", "HeaderType", "Size")
-		lenChange := func(in ssa.Instruction) bool {
-			cc := ir.CallOf(in)
-			if cc == nil {
-				return false
-			}
-			if cc.IsInvoke() {
-				n := cc.Method.Name()
-				if n != "Truncate" && n != "Write" && n != "WriteString" && n != "WriteAt" {
-					return false
-				}
-				// on the header file: an interface with Stat and Truncate
-				it, ok := cc.Value.Type().Underlying().(*types.Interface)
-				if !ok {
-					return false
-				}
-				has := false
-				for i := 0; i < it.NumMethods(); i++ {
-					if it.Method(i).Name() == "Truncate" {
-						has = true
-					}
-				}
-				return has
-			}
-			if f := cc.StaticCallee(); f != nil && f.Pkg != nil && f.Pkg.Pkg.Path() == "os" {
-				if f.Name() == "Truncate" && f.Signature.Recv() == nil {
-					return true
-				}
-				if r := f.Signature.Recv(); r != nil && (f.Name() == "Truncate" || f.Name() == "Write" || f.Name() == "WriteString" || f.Name() == "WriteAt") {
-					return true
-				}
-			}
-			return false
-		}
-		isTrunc := func(in ssa.Instruction) bool {
-			if callTo(truncFile)(in) {
-				return true
-			}
-			cc := ir.CallOf(in)
-			if cc == nil {
-				return false
-			}
-			if cc.IsInvoke() {
-				return cc.Method.Name() == "Truncate"
-			}
-			f := cc.StaticCallee()
-			return f != nil && f.Name() == "Truncate" && f.Pkg != nil && f.Pkg.Pkg.Path() == "os"
-		}
-		asked := func(v ssa.Value) bool {
-			return ir.InfluencedBy(v, func(x ssa.Value) bool {
-				cc, ok := x.(*ssa.Call)
-				if !ok {
-					return false
-				}
-				name := ""
-				if cc.Call.IsInvoke() {
-					name = cc.Call.Method.Name()
-				} else if f := cc.Call.StaticCallee(); f != nil {
-					name = f.Name()
-				}
-				switch name {
-				case "Stat":
-					return true
-				case "Seek":
-					a := argsOf(cc)
-					if len(a) == 2 {
-						k, isC := ir.ConstInt(a[1])
-						return isC && k == 2
-					}
-				}
-				return false
-			})
-		}
-		var remembered *types.Var
-		fieldOf := func(v ssa.Value) bool {
-			return ir.DerivesFrom(v, func(x ssa.Value) bool {
-				if fa, ok := x.(*ssa.FieldAddr); ok {
-					if bt, isB := ir.FieldOfAddr(fa).Type().Underlying().(*types.Basic); isB && bt.Info()&types.IsInteger != 0 {
-						remembered = ir.FieldOfAddr(fa)
-						return true
-					}
-				}
-				return false
-			})
-		}
-		cuts := find(fn, isTrunc)
-		construct := c.nm(fn) + " | new length = current length - numHeaders * record size"
-		if len(cuts) == 0 {
-			c.fail(construct, c.P.Pos(fn.Pos()), "no truncation (truncateFile / Truncate) found in truncateHeaders")
-			return
-		}
-		for _, in := range cuts {
-			a := argsOf(in)
-			b, isB := ir.Strip(a[len(a)-1]).(*ssa.BinOp)
-			if !isB || b.Op != token.SUB {
-				c.fail(construct, c.at(in), "the new length is not a difference (current length - bytes to remove)", c.at(in))
-				continue
-			}
-			okSub := ir.InfluencedBy(b.Y, func(x ssa.Value) bool { return x == ssa.Value(fn.Params[1]) }) && ir.InfluencedBy(b.Y, valIsCallTo(sizeOfType))
-			if m, isM := ir.Strip(b.Y).(*ssa.BinOp); !isM || m.Op != token.MUL {
-				okSub = false
-			}
-			c.verdict(okSub, c.nm(fn)+" | bytes to remove = numHeaders * record size", c.at(in), "numHeaders * headerType.Size()", "the number of bytes cut off is not the product of numHeaders and the record size of the header type", c.at(in))
-			switch {
-			case asked(b.X):
-				c.pass(construct, c.at(in), "the current length is read from the file (Stat / Seek to the end) in this call", c.at(in))
-			case fieldOf(b.X):
-				// every length change is followed by a refresh of the field
-				refresh := storeToField(remembered)
-				var bad []string
-				var sites []string
-				var follows func(f *ssa.Function, at ssa.Instruction, depth int, trail string)
-				follows = func(f *ssa.Function, at ssa.Instruction, depth int, trail string) {
-					// found: the field is written behind the change; moot: every
-					// way on from here ends in an error return (the change was
-					// being undone, or is reported as failed)
-					found, moot := false, true
-					nres := f.Signature.Results().Len()
-					ir.WalkAfter(at, nil, func(x ssa.Instruction) bool {
-						if refresh(x) {
-							found = true
-						}
-						if ret, isRet := x.(*ssa.Return); isRet {
-							if nres == 0 {
-								moot = false
-							} else if rv := ir.RetVal(ret, nres-1); ir.IsNil(rv) || !(nonNilAt(rv, ret.Block()) || knownNonNilError(rv)) {
-								moot = false
-							}
-						}
-						return !found
-					})
-					if found || moot {
-						return
-					}
-					var callers []ssa.Instruction
-					var cfns []*ssa.Function
-					for _, g := range c.P.Funcs {
-						g := g
-						ir.Instrs(g, func(x ssa.Instruction) {
-							if cc := ir.CallOf(x); cc != nil && cc.StaticCallee() == f {
-								callers = append(callers, x)
-								cfns = append(cfns, g)
-							}
-						})
-					}
-					if len(callers) == 0 || depth >= 3 {
-						bad = append(bad, trail+" is not followed by a write of "+c.on(remembered))
-						return
-					}
-					for i, x := range callers {
-						follows(cfns[i], x, depth+1, c.nm(cfns[i])+" at "+c.at(x)+" -> "+trail)
-					}
-				}
-				for _, g := range c.P.Funcs {
-					if g.Pkg == nil || g.Pkg != fn.Pkg {
-						continue
-					}
-					g := g
-					for _, x := range find(g, lenChange) {
-						sites = append(sites, c.at(x))
-						follows(g, x, 0, c.nm(g)+" at "+c.at(x))
-					}
-				}
-				sort.Strings(bad)
-				c.verdict(len(bad) == 0 && len(sites) >= 2, construct, c.at(in), fmt.Sprintf("the remembered length %s is written again after each of the %d length changes of the file", c.on(remembered), len(sites)), "the current length is the remembered "+c.on(remembered)+", which goes stale: "+join(uniq(bad)), sites...)
-			default:
-				c.fail(construct, c.at(in), "the current length is neither read from the file in this call nor a remembered field", c.at(in))
-			}
-		}
-	})
+	c.rule("C08.V1", truncatesWholeRecordsDoc, func() { c.truncatesWholeRecords() })
 
 	c.rule("C08.O7", "a write torn by a crash is cut off before the file is used again: newHeaderStore calls trimPartialHeader on the file it just opened and hands the store out only if that succeeded; trimPartialHeader leaves the file alone only when its size is a whole number of records (size % record size == 0) and otherwise truncates it to size - size % record size, both taken from the file's Stat and the header type's Size (the file is append-only: a fragment left behind shifts every later record, and the start-up reconciliation only removes whole records)", func() {
 		nh := c.fn("headerfs.newHeaderStore")
@@ -428,5 +256,182 @@ func (c *Ctx) startupReconciliation(specs ...reconSpec) {
 		geq := boolIs("tipHash.IsEqual(latest file record)", find(fn, callTo(isEq)), 0, true)
 		c.mustFollow(fn, "index tip != last file record", c.failEdges(geq), callTo(trunc), "truncateHeaders(fileHeight-tipHeight)", nil, 1)
 		c.guarded(fn, errNil("truncateHeaders", find(fn, callTo(trunc)), 0), 1, "return store after reconciliation", nil, 0, gDominate)
+	}
+}
+
+const truncatesWholeRecordsDoc = "whole records are cut off the real end of the file: truncateHeaders computes the new length as (current length) - numHeaders * (record size), where the current length is asked of the file in that call (Stat().Size() or Seek(0, io.SeekEnd)); a remembered length is accepted only if every function of the package that changes the file's length (Write / Truncate on it, os.Truncate) - or each of its callers - writes the remembered length again after doing so: a length recorded before the start-up trim of a torn tail stays too large by the fragment, every later rollback leaves that fragment of a removed header behind, and the append-only file then holds every later record at a shifted offset"
+
+// truncatesWholeRecords: see truncatesWholeRecordsDoc.
+func (c *Ctx) truncatesWholeRecords() {
+	fn := c.fn("(*headerfs.headerFile).truncateHeaders")
+	truncFile := c.hfs("headerFile", "truncateFile")
+	sizeOfType := c.method("headerfs", "HeaderType", "Size")
+	lenChange := func(in ssa.Instruction) bool {
+		cc := ir.CallOf(in)
+		if cc == nil {
+			return false
+		}
+		if cc.IsInvoke() {
+			n := cc.Method.Name()
+			if n != "Truncate" && n != "Write" && n != "WriteString" && n != "WriteAt" {
+				return false
+			}
+			// on the header file: an interface with Stat and Truncate
+			it, ok := cc.Value.Type().Underlying().(*types.Interface)
+			if !ok {
+				return false
+			}
+			has := false
+			for i := 0; i < it.NumMethods(); i++ {
+				if it.Method(i).Name() == "Truncate" {
+					has = true
+				}
+			}
+			return has
+		}
+		if f := cc.StaticCallee(); f != nil && f.Pkg != nil && f.Pkg.Pkg.Path() == "os" {
+			if f.Name() == "Truncate" && f.Signature.Recv() == nil {
+				return true
+			}
+			if r := f.Signature.Recv(); r != nil && (f.Name() == "Truncate" || f.Name() == "Write" || f.Name() == "WriteString" || f.Name() == "WriteAt") {
+				return true
+			}
+		}
+		return false
+	}
+	isTrunc := func(in ssa.Instruction) bool {
+		if callTo(truncFile)(in) {
+			return true
+		}
+		cc := ir.CallOf(in)
+		if cc == nil {
+			return false
+		}
+		if cc.IsInvoke() {
+			return cc.Method.Name() == "Truncate"
+		}
+		f := cc.StaticCallee()
+		return f != nil && f.Name() == "Truncate" && f.Pkg != nil && f.Pkg.Pkg.Path() == "os"
+	}
+	asked := func(v ssa.Value) bool {
+		return ir.InfluencedBy(v, func(x ssa.Value) bool {
+			cc, ok := x.(*ssa.Call)
+			if !ok {
+				return false
+			}
+			name := ""
+			if cc.Call.IsInvoke() {
+				name = cc.Call.Method.Name()
+			} else if f := cc.Call.StaticCallee(); f != nil {
+				name = f.Name()
+			}
+			switch name {
+			case "Stat":
+				return true
+			case "Seek":
+				a := argsOf(cc)
+				if len(a) == 2 {
+					k, isC := ir.ConstInt(a[1])
+					return isC && k == 2
+				}
+			}
+			return false
+		})
+	}
+	var remembered *types.Var
+	fieldOf := func(v ssa.Value) bool {
+		return ir.DerivesFrom(v, func(x ssa.Value) bool {
+			if fa, ok := x.(*ssa.FieldAddr); ok {
+				if bt, isB := ir.FieldOfAddr(fa).Type().Underlying().(*types.Basic); isB && bt.Info()&types.IsInteger != 0 {
+					remembered = ir.FieldOfAddr(fa)
+					return true
+				}
+			}
+			return false
+		})
+	}
+	cuts := find(fn, isTrunc)
+	construct := c.nm(fn) + " | new length = current length - numHeaders * record size"
+	if len(cuts) == 0 {
+		c.fail(construct, c.P.Pos(fn.Pos()), "no truncation (truncateFile / Truncate) found in truncateHeaders")
+		return
+	}
+	for _, in := range cuts {
+		a := argsOf(in)
+		b, isB := ir.Strip(a[len(a)-1]).(*ssa.BinOp)
+		if !isB || b.Op != token.SUB {
+			c.fail(construct, c.at(in), "the new length is not a difference (current length - bytes to remove)", c.at(in))
+			continue
+		}
+		okSub := ir.InfluencedBy(b.Y, func(x ssa.Value) bool { return x == ssa.Value(fn.Params[1]) }) && ir.InfluencedBy(b.Y, valIsCallTo(sizeOfType))
+		if m, isM := ir.Strip(b.Y).(*ssa.BinOp); !isM || m.Op != token.MUL {
+			okSub = false
+		}
+		c.verdict(okSub, c.nm(fn)+" | bytes to remove = numHeaders * record size", c.at(in), "numHeaders * headerType.Size()", "the number of bytes cut off is not the product of numHeaders and the record size of the header type", c.at(in))
+		switch {
+		case asked(b.X):
+			c.pass(construct, c.at(in), "the current length is read from the file (Stat / Seek to the end) in this call", c.at(in))
+		case fieldOf(b.X):
+			// every length change is followed by a refresh of the field
+			refresh := storeToField(remembered)
+			var bad []string
+			var sites []string
+			var follows func(f *ssa.Function, at ssa.Instruction, depth int, trail string)
+			follows = func(f *ssa.Function, at ssa.Instruction, depth int, trail string) {
+				// found: the field is written behind the change; moot: every
+				// way on from here ends in an error return (the change was
+				// being undone, or is reported as failed)
+				found, moot := false, true
+				nres := f.Signature.Results().Len()
+				ir.WalkAfter(at, nil, func(x ssa.Instruction) bool {
+					if refresh(x) {
+						found = true
+					}
+					if ret, isRet := x.(*ssa.Return); isRet {
+						if nres == 0 {
+							moot = false
+						} else if rv := ir.RetVal(ret, nres-1); ir.IsNil(rv) || !(nonNilAt(rv, ret.Block()) || knownNonNilError(rv)) {
+							moot = false
+						}
+					}
+					return !found
+				})
+				if found || moot {
+					return
+				}
+				var callers []ssa.Instruction
+				var cfns []*ssa.Function
+				for _, g := range c.P.Funcs {
+					g := g
+					ir.Instrs(g, func(x ssa.Instruction) {
+						if cc := ir.CallOf(x); cc != nil && cc.StaticCallee() == f {
+							callers = append(callers, x)
+							cfns = append(cfns, g)
+						}
+					})
+				}
+				if len(callers) == 0 || depth >= 3 {
+					bad = append(bad, trail+" is not followed by a write of "+c.on(remembered))
+					return
+				}
+				for i, x := range callers {
+					follows(cfns[i], x, depth+1, c.nm(cfns[i])+" at "+c.at(x)+" -> "+trail)
+				}
+			}
+			for _, g := range c.P.Funcs {
+				if g.Pkg == nil || g.Pkg != fn.Pkg {
+					continue
+				}
+				g := g
+				for _, x := range find(g, lenChange) {
+					sites = append(sites, c.at(x))
+					follows(g, x, 0, c.nm(g)+" at "+c.at(x))
+				}
+			}
+			sort.Strings(bad)
+			c.verdict(len(bad) == 0 && len(sites) >= 2, construct, c.at(in), fmt.Sprintf("the remembered length %s is written again after each of the %d length changes of the file", c.on(remembered), len(sites)), "the current length is the remembered "+c.on(remembered)+", which goes stale: "+join(uniq(bad)), sites...)
+		default:
+			c.fail(construct, c.at(in), "the current length is neither read from the file in this call nor a remembered field", c.at(in))
+		}
 	}
 }
